@@ -51,11 +51,6 @@ def maxPrinciple (lo hi tol : Rat) (out : List Rat) : Bool := out.all (within lo
 def boundaryKept (s : Seeds) (out : List Rat) : Bool :=
   s.all fun p => decide (p.1 < out.length) && out.getD p.1 0 == p.2
 
-/-- weights are non-negative and every one of the `n` nodes has an outgoing edge -/
-def noSink (n : Nat) (w : Nat → Nat → Rat) : Bool :=
-  (List.range n).all fun i =>
-    ((List.range n).all fun j => decide (0 ≤ w i j)) && ((List.range n).any fun j => decide (0 < w i j))
-
 /-! ### harmonic functions -/
 
 /-- `h` equals the seeds on the boundary and the weighted mean of its neighbours elsewhere -/
@@ -84,17 +79,6 @@ inductive Path (n : Nat) (w : Nat → Nat → Rat) : Nat → Nat → Prop
 
 /-- the graph is connected -/
 def Connected (n : Nat) (w : Nat → Nat → Rat) : Prop := ∀ i j, i < n → j < n → Path n w i j
-
-def symmetric (n : Nat) (w : Nat → Nat → Rat) : Bool :=
-  (List.range n).all fun i => (List.range n).all fun j => w i j == w j i
-
-/-- nodes reachable from node 0 along edges of positive weight (n rounds of closure) -/
-def reach0 (n : Nat) (w : Nat → Nat → Rat) : List Bool :=
-  let step (r : List Bool) : List Bool :=
-    tab n fun v => r.getD v false || (List.range n).any fun u => r.getD u false && decide (0 < w u v)
-  (List.range n).foldl (fun r _ => step r) (tab n fun v => v == 0)
-
-def connected (n : Nat) (w : Nat → Nat → Rat) : Bool := (reach0 n w).all id
 
 /-- one round of backward closure: `v` is marked when it is, or when an edge of positive weight leads to a marked node -/
 def reachStep (n : Nat) (w : Nat → Nat → Rat) (r : List Bool) : List Bool :=
